@@ -277,11 +277,13 @@ def execute(case):
     net = build_network(netd, deferred_index=deferred)
     ev = []
     steps = len(ops) if ops is not None else 3
+    source = None                       # (network the current one was cut out of, its projection right after the cut)
     for step in range(steps):
         pre = project(net)
         a = ops[step] if ops is not None else _random_op(r, pre)
         if a is None:
             break
+        before = net
         try:
             net, detail = apply_op(net, a, variant + step)
             res = "ok"
@@ -292,6 +294,22 @@ def execute(case):
                    "sig": "%s[%s]%s" % (a["op"], detail, "@deferred-index" if deferred else "")})
         if res != "ok":
             break
+        if source is not None:          # a later operation on the cut-out must not reach into the network it came from
+            ev.append({"op": "sibling", "ids": [], "ref": 0, "res": "ok", "pre": source[1], "post": project(source[0]),
+                       "sig": "sibling[source-after-%s-on-cut-out]" % a["op"]})
+        if net is not before and a["op"] in ("cut_shape", "cut_types", "from_list"):
+            source = (before, project(before))
+            # ... and a removal on the source must not reach into the cut-out: remove (from the SOURCE, which the
+            # history leaves behind) a lanelet that both networks contain
+            both = sorted(set(post["L"]) & set(source[1]["L"]))
+            if both and (variant + step) % 2 == 0:
+                try:
+                    before.remove_lanelet(both[0])
+                    ev.append({"op": "sibling", "ids": [], "ref": 0, "res": "ok", "pre": post, "post": project(net),
+                               "sig": "sibling[cut-out-after-remove_lanelet-on-source/%s]" % a["op"]})
+                    source = (before, project(before))
+                except Exception:
+                    source = None
     return {"ev": ev}
 
 
